@@ -2162,20 +2162,22 @@ class RawAlgorithmsMixIn:
         Lam_data    = cls._diag(lam_data)
         Lambar_data = cls._diag(lambar_data)
 
-        # STEP 1: compute H
+        # STEP 1: compute H[m,n] = 1/(lam_n - lam_m) in Taylor arithmetic (zero where the base eigenvalues coincide)
         for m in range(N):
             for n in range(N):
-                for p in range(P):
-                    tmp = lam_data[0,p,n] - lam_data[0,p,m]
-                    if numpy.abs(tmp) > 1e-8:
-                        for d in range(D):
-                            H[d,p,m,n] = 1./tmp
-                # tmp = lam_data[:,:,n] -   lam_data[:,:,m]
-                # cls._truediv(Id, tmp, out = H[:,:,m,n])
+                tmp = lam_data[:,:,n] - lam_data[:,:,m]
+                mask = numpy.abs(tmp[0]) > 1e-8
+                if not mask.any():
+                    continue
+                tmp[0, ~mask] = 1.
+                Hmn = numpy.zeros((D,P))
+                cls._truediv(Id, tmp, Hmn)
+                Hmn[:, ~mask] = 0.
+                H[:,:,m,n] = Hmn
 
-        # STEP 2: compute Lbar +  H * Q^T Qbar
+        # STEP 2: compute Lbar +  H * Q^T Qbar   (element-wise product of Taylor polynomials)
         cls._dot(cls._transpose(Q_data), Qbar_data, out = tmp1)
-        tmp1[...] *= H[...]
+        tmp1 = cls._mul(tmp1, H)
         tmp1[...] += Lambar_data[...]
 
         # STEP 3: compute Q ( Lbar +  H * Q^T Qbar ) Q^T
